@@ -73,6 +73,15 @@ def run_case(case, mods):
                         clock.etempo(pf(ws[1]))
                     elif ws[0] == 'beats':
                         clock.beats = pf(ws[1])
+                    elif ws[0] == 'obeats':
+                        # the same assignment made from OUTSIDE the clock's routines: the main time thread
+                        # (its logical time in NRT is the time of the last wake-up, i.e. now)
+                        saved = main.current_tt
+                        main.current_tt = main.main_tt
+                        try:
+                            clock.beats = pf(ws[1])
+                        finally:
+                            main.current_tt = saved
                     elif ws[0] == 'bpb':
                         clock.beats_per_bar = pf(ws[1])
                     elif ws[0] == 'q':
